@@ -354,115 +354,6 @@ theorem charge_tensordot [Zero R] [Add R] [Mul R] {a b c : Tensor R} {inA inB : 
   obtain ⟨_, _, _, _, _, _, _, hc, _⟩ := tensordot_ok_iff h
   rw [hc]; exact ⟨rfl, rfl⟩
 
-/-! ### every finite program -/
-
-theorem getVal_mem {vals : List (Tensor R)} {i : Nat} {t : Tensor R} (h : getVal vals i = .ok t) : t ∈ vals := by
-  unfold getVal at h
-  split at h
-  · rename_i t' ht
-    cases h
-    exact List.mem_of_getElem? ht
-  · cases h
-
-/-- all values of a program state are well-formed tensors of one symmetry in canonical shape -/
-def GoodState (d : SymDef) (ms : List Nat) (vals : List (Tensor R)) : Prop :=
-  ∀ t ∈ vals, WF ms t ∧ t.sym = d
-
-theorem step_wf [Zero R] [Add R] [Mul R] [Neg R] [Conj R] {d : SymDef} (hd : WSym d ms)
-    {vals : List (Tensor R)} (hv : GoodState d ms vals) (st : Step R) {t : Tensor R}
-    (h : st.run vals = .ok t) : WF ms t ∧ t.sym = d := by
-  cases st with
-  | add i j =>
-    simp only [Step.run, bind, Except.bind] at h
-    split at h; · cases h
-    rename_i a ha
-    split at h; · cases h
-    rename_i b hb
-    obtain ⟨wa, sa⟩ := hv a (getVal_mem ha)
-    obtain ⟨wb, _⟩ := hv b (getVal_mem hb)
-    exact ⟨wf_add wa wb h, by rw [(charge_add h).2.2.2, sa]⟩
-  | sub i j =>
-    simp only [Step.run, bind, Except.bind] at h
-    split at h; · cases h
-    rename_i a ha
-    split at h; · cases h
-    rename_i b hb
-    obtain ⟨wa, sa⟩ := hv a (getVal_mem ha)
-    obtain ⟨wb, _⟩ := hv b (getVal_mem hb)
-    unfold sub at h
-    exact ⟨wf_add wa (wf_neg wb) h, by rw [(charge_add h).2.2.2, sa]⟩
-  | smul c i =>
-    simp only [Step.run, bind, Except.bind, pure, Except.pure] at h
-    split at h; · cases h
-    rename_i a ha
-    cases h
-    obtain ⟨wa, sa⟩ := hv a (getVal_mem ha)
-    exact ⟨wf_smul c wa, sa⟩
-  | neg i =>
-    simp only [Step.run, bind, Except.bind, pure, Except.pure] at h
-    split at h; · cases h
-    rename_i a ha
-    cases h
-    obtain ⟨wa, sa⟩ := hv a (getVal_mem ha)
-    exact ⟨wf_neg wa, sa⟩
-  | conj i =>
-    simp only [Step.run, bind, Except.bind, pure, Except.pure] at h
-    split at h; · cases h
-    rename_i a ha
-    cases h
-    obtain ⟨wa, sa⟩ := hv a (getVal_mem ha)
-    exact ⟨wf_conj (by rw [sa]; exact hd) wa, sa⟩
-  | conjBlocks i =>
-    simp only [Step.run, bind, Except.bind, pure, Except.pure] at h
-    split at h; · cases h
-    rename_i a ha
-    cases h
-    obtain ⟨wa, sa⟩ := hv a (getVal_mem ha)
-    exact ⟨wf_conjBlocks wa, sa⟩
-  | flipSignature i =>
-    simp only [Step.run, bind, Except.bind, pure, Except.pure] at h
-    split at h; · cases h
-    rename_i a ha
-    cases h
-    obtain ⟨wa, sa⟩ := hv a (getVal_mem ha)
-    exact ⟨wf_flipSignature (by rw [sa]; exact hd) wa, sa⟩
-  | transpose σ i =>
-    simp only [Step.run, bind, Except.bind] at h
-    split at h; · cases h
-    rename_i a ha
-    obtain ⟨wa, sa⟩ := hv a (getVal_mem ha)
-    exact ⟨wf_transpose wa h, by rw [(charge_transpose h).2.2, sa]⟩
-  | tensordot i j inA inB =>
-    simp only [Step.run, bind, Except.bind] at h
-    split at h; · cases h
-    rename_i a ha
-    split at h; · cases h
-    rename_i b hb
-    obtain ⟨wa, sa⟩ := hv a (getVal_mem ha)
-    obtain ⟨wb, _⟩ := hv b (getVal_mem hb)
-    refine ⟨wf_tensordot (by rw [sa]; exact hd) wa wb h, ?_⟩
-    obtain ⟨_, _, _, _, _, _, _, hc, _⟩ := tensordot_ok_iff h
-    rw [hc]; exact sa
-
-/-- **every finite sequence of operations**: starting from well-formed tensors, every value a program
-ever produces is well-formed (induction over the program) -/
-theorem eval_wf [Zero R] [Add R] [Mul R] [Neg R] [Conj R] {d : SymDef} (hd : WSym d ms)
-    (steps : List (Step R)) {vals out : List (Tensor R)} (hv : GoodState d ms vals)
-    (h : runProg vals steps = .ok out) : GoodState d ms out := by
-  induction steps generalizing vals with
-  | nil => simp only [runProg] at h; cases h; exact hv
-  | cons st rest ih =>
-    simp only [runProg] at h
-    split at h
-    · rename_i t ht
-      apply ih _ h
-      intro x hx
-      rcases List.mem_append.mp hx with h' | h'
-      · exact hv x h'
-      · simp only [List.mem_singleton] at h'; subst h'
-        exact step_wf hd hv st ht
-    · cases h
-
 /-! ### symmetry-forbidden elements vanish -/
 
 /-- **every dense element outside the symmetry-allowed sectors is zero**: if the leg charges located by a
